@@ -200,6 +200,46 @@ theorem tmle_saturated (σ lg : F → F) (l : List (Row F)) (S : List Nat) (hS :
   obtain ⟨a, b⟩ := tmle_dr_treatment σ lg l S hS hpos hw Q p hp q hq e1 e2 h1 h0
   refine ⟨?_, ?_⟩ <;> simp only [Tmle.rrOf, Tmle.orOf, t, a, b, Nat.cast_one]
 
+/-! ### Non-vacuity: a concrete data set on which the hypotheses of the double-robustness theorems hold
+
+2 strata × 2 arms, unit weights, complete outcomes.  The *misspecified* halves are deliberately wrong: treatment
+probabilities `1/2`, `1/3` (they do not even sum to one) against saturated outcome means; outcome predictions `0`
+against the saturated treated fractions 2/3 and 1/3. -/
+def exD : List (Row ℚ) :=
+  [⟨0, 0, true, 1, 1, true⟩, ⟨1, 0, true, 0, 1, true⟩, ⟨2, 0, false, 1, 1, true⟩,
+   ⟨3, 1, true, 1, 1, true⟩, ⟨4, 1, false, 0, 1, true⟩, ⟨5, 1, false, 1, 1, true⟩]
+
+/-- the saturated outcome fit of `exD` (cell means) -/
+def exQ : Nat → Bool → ℚ := fun s a => if s = 0 then (if a then 1/2 else 1) else (if a then 1 else 1/2)
+
+example : Strata exD [0, 1] ∧ Positivity exD [0, 1] ∧ (∀ r ∈ exD, r.obs = true) ∧ (∀ r ∈ exD, r.w = 1) := by
+  refine ⟨⟨by decide, by decide⟩, ⟨by decide, ?_⟩, by decide, by decide⟩
+  intro s hs a
+  simp only [List.mem_cons, List.not_mem_nil, or_false] at hs
+  rcases hs with rfl | rfl <;> cases a <;> simp [exD, inCell]
+
+example : OutFit exD [0, 1] exQ := by
+  intro s hs a; simp only [List.mem_cons, List.not_mem_nil, or_false] at hs
+  rcases hs with rfl | rfl <;> cases a <;> norm_num [exD, exQ, W, WY, sumIf, sumBy, inCell]
+
+example : PropFit exD [0, 1] (fun s => if s = 0 then 2/3 else 1/3) ∧ MissFit exD [0, 1] (fun _ _ => 1) := by
+  constructor
+  · intro s hs; simp only [List.mem_cons, List.not_mem_nil, or_false] at hs
+    rcases hs with rfl | rfl <;> norm_num [exD, W, sumIf, sumBy, inStratum, inCellAll]
+  · intro s hs a; simp only [List.mem_cons, List.not_mem_nil, or_false] at hs
+    rcases hs with rfl | rfl <;> cases a <;> norm_num [exD, W, sumIf, sumBy, inCell, inCellAll]
+
+/-- the efficient-score hypotheses of `tmle_dr_outcome` are met (at ε = 0, identity link, saturated outcome fit,
+    misspecified treatment probabilities 1/2 and 1/3), and its conclusion is not trivial: the standardized risk under
+    treatment is 3/4 -/
+example : Tmle.eff1 id id 0 (exD.map (toT exQ (fun _ => 1/2) (fun _ => 1/3))) = 0 ∧
+    Tmle.eff0 id id 0 (exD.map (toT exQ (fun _ => 1/2) (fun _ => 1/3))) = 0 ∧
+    std exD [0, 1] Tgt.pop.mem true = 3/4 := by
+  refine ⟨?_, ?_, ?_⟩
+  · norm_num [Tmle.eff1, Tmle.obsRows, Tmle.ind, Tmle.qstar1, toT, exD, exQ, sumBy]
+  · norm_num [Tmle.eff0, Tmle.obsRows, Tmle.ind, Tmle.qstar0, toT, exD, exQ, sumBy]
+  · norm_num [std, Ntgt, cellMean, exD, W, WY, sumIf, sumBy, inCell, inStratum, Tgt.mem]
+
 /-! ### Witnesses -/
 
 /-- 1 stratum, sample: arm 1 {1,1,0}, arm 0 {0,1}; target: 5 rows.  Saturated fits: π = 1/2, p = 3/5;
